@@ -42,6 +42,15 @@ def run(ctx):
         elif c["kind"] in ("basemul", "mul", "comb"):
             if g["xy"] != e:
                 probs.append("result (%s, %s), the group result is (%s, %s)" % (g["xy"]["x"][:16] + "..", g["xy"]["y"][:16] + "..", e["x"][:16] + "..", e["y"][:16] + ".."))
+        elif c["kind"] == "addsamey":
+            if x["data"]["ok"]:
+                if not x["data"]["shape"]:
+                    raise Infra("ECTab: the sum of two points with the same y is not (-x1 - x2, -y)")
+                if not g["q_oncurve"]:
+                    probs.append("IsOnCurve refuses the second root of x^3 + ax + b = y^2")
+                if g["xy"] != e or g["xy_swapped"] != e:
+                    probs.append("sum of two distinct points with the SAME y: (%s.., %s..) / swapped (%s.., %s..), the group result is (%s.., %s..)" % (
+                        g["xy"]["x"][:16], g["xy"]["y"][:16], g["xy_swapped"]["x"][:16], g["xy_swapped"]["y"][:16], e["x"][:16], e["y"][:16]))
         elif c["kind"] == "genkey":
             if g.get("err"):
                 probs.append("GenerateKey failed: " + g["err"])
